@@ -76,22 +76,23 @@ type Sim struct {
 	T      *tape.Tape
 	Policy Policy
 
-	mu          sync.Mutex
-	byGoid      map[uint64]*gor
-	tokens      map[uint64]string
-	nextTok     uint64
-	parked      map[string]*parked
-	actions     map[string]*Action
-	alive       map[string]int
-	labelCnt    map[string]int
-	pending     map[string]int
-	outstanding map[interface{}]bool
-	toClear     map[interface{}]bool
-	deadKey     map[interface{}]bool
-	Held        int
-	named       map[uint64]bool
-	anon        int
-	down        bool
+	mu            sync.Mutex
+	byGoid        map[uint64]*gor
+	tokens        map[uint64]string
+	nextTok       uint64
+	parked        map[string]*parked
+	actions       map[string]*Action
+	alive         map[string]int
+	labelCnt      map[string]int
+	pending       map[string]int
+	outstanding   map[interface{}]bool
+	outstandingBy map[interface{}]string
+	toClear       map[interface{}]bool
+	deadKey       map[interface{}]bool
+	Held          int
+	named         map[uint64]bool
+	anon          int
+	down          bool
 
 	Steps     int
 	Forks     int
@@ -133,26 +134,27 @@ type Sim struct {
 
 func New(t *tape.Tape) *Sim {
 	return &Sim{
-		T:           t,
-		Policy:      Policy{Deviation: 16},
-		byGoid:      map[uint64]*gor{},
-		tokens:      map[uint64]string{},
-		parked:      map[string]*parked{},
-		actions:     map[string]*Action{},
-		alive:       map[string]int{},
-		labelCnt:    map[string]int{},
-		pending:     map[string]int{},
-		outstanding: map[interface{}]bool{},
-		toClear:     map[interface{}]bool{},
-		deadKey:     map[interface{}]bool{},
-		named:       map[uint64]bool{},
-		ClassFire:   map[string]int{},
-		TraceCap:    400,
-		traceHash:   1469598103934665603,
-		AutoSites:   map[string]int{},
-		amrSent:     map[string]int{},
-		amrReduced:  map[string]int{},
-		driver:      goid(),
+		T:             t,
+		Policy:        Policy{Deviation: 16},
+		byGoid:        map[uint64]*gor{},
+		tokens:        map[uint64]string{},
+		parked:        map[string]*parked{},
+		actions:       map[string]*Action{},
+		alive:         map[string]int{},
+		labelCnt:      map[string]int{},
+		pending:       map[string]int{},
+		outstanding:   map[interface{}]bool{},
+		outstandingBy: map[interface{}]string{},
+		toClear:       map[interface{}]bool{},
+		deadKey:       map[interface{}]bool{},
+		named:         map[uint64]bool{},
+		ClassFire:     map[string]int{},
+		TraceCap:      400,
+		traceHash:     1469598103934665603,
+		AutoSites:     map[string]int{},
+		amrSent:       map[string]int{},
+		amrReduced:    map[string]int{},
+		driver:        goid(),
 	}
 }
 
@@ -455,6 +457,25 @@ func (s *Sim) NetDial() func(ctx context.Context, network, addr string) (net.Con
 	return s.DialFn
 }
 
+// Quiet reports whether nothing but waiting harness goroutines (labels "wait-...") and clock ticks
+// is left to release: every other goroutine is blocked for good or gone, no delivery is pending.
+// For a harness goroutine that wants to look at the system at rest (it is the one that runs).
+func (s *Sim) Quiet() bool {
+	s.mu.Lock()
+	defer s.mu.Unlock()
+	for _, p := range s.parked {
+		if !strings.HasPrefix(p.label, "wait-") {
+			return false
+		}
+	}
+	for _, a := range s.actions {
+		if a.Class != "clock.tick" {
+			return false
+		}
+	}
+	return true
+}
+
 // CurrentID returns the logical identity of the calling goroutine ("" if it has none).
 func (s *Sim) CurrentID() string {
 	s.mu.Lock()
@@ -564,7 +585,18 @@ type enabledItem struct {
 func (s *Sim) enabled(now time.Time) (items []enabledItem, nextAt time.Time) {
 	for k := range s.toClear {
 		delete(s.outstanding, k)
+		delete(s.outstandingBy, k)
 		delete(s.toClear, k)
+	}
+	// a sender that has stopped somewhere else, or has ended, has got rid of its item (the channels
+	// are unbuffered: the send is over when the listener took it, or - after a change to the code -
+	// when it was given up): the next sender may go, also while the listener is still busy
+	for k, id := range s.outstandingBy {
+		_, stopped := s.parked[id]
+		if stopped || s.alive[id] <= 0 {
+			delete(s.outstanding, k)
+			delete(s.outstandingBy, k)
+		}
 	}
 	// the reducer of an AsyncMapReduce call selects over two channels; a Go select with two ready
 	// cases chooses at random, so at most one item is on its way to the reducer at any time: a
@@ -754,6 +786,7 @@ func (s *Sim) Step() (did bool, nextAt time.Time) {
 			switch {
 			case SenderClasses[it.p.label]:
 				s.outstanding[k] = true
+				s.outstandingBy[k] = it.p.g.id
 			case it.p.label == ReceiverSelect:
 				s.toClear[k] = true
 			case it.p.label == ReceiverGone:
